@@ -28,6 +28,8 @@ class Ctx:
     def __init__(self, prop, tier, seed, replay=None):
         self.prop, self.tier, self.seed, self.replay = prop, tier, seed, replay
         self.repo = os.environ.get("VERIF_REPO", "/repo")
+        # runs against a scratch tree (seeded changes) must not overwrite the evidence / replay files of /repo itself
+        self.outdir = VERIF if os.path.realpath(self.repo) == "/repo" else os.environ.get("VERIF_OUT", os.path.join(tempfile.gettempdir(), "verif-scratch-out"))
         self.t0 = time.time()
         self.scratch = tempfile.mkdtemp(prefix="verif-%s-" % prop)
         self.specdir = os.path.join(self.scratch, "spec")
@@ -310,8 +312,8 @@ class Ctx:
                 continue
             seen.add(key)
             if len(paths) < 5:
-                os.makedirs(os.path.join(VERIF, "replay"), exist_ok=True)
-                path = os.path.join(VERIF, "replay", "%s-%s.json" % (self.prop, key))
+                os.makedirs(os.path.join(self.outdir, "replay"), exist_ok=True)
+                path = os.path.join(self.outdir, "replay", "%s-%s.json" % (self.prop, key))
                 json.dump(dict(property=self.prop, tier=self.tier, seed=self.seed, violation=v), open(path, "w"), indent=1)
                 paths.append(path)
         self.write_evidence(len(new), known, missing)
@@ -338,8 +340,8 @@ class Ctx:
         cov.update(self.extra)
         ev = dict(property_id=self.prop, tier=self.tier, seed=self.seed, level=self.level, coverage=cov,
                   assumptions=self.assumptions, wall_s=round(time.time() - self.t0, 2), violations=nviol)
-        os.makedirs(os.path.join(VERIF, "evidence"), exist_ok=True)
-        json.dump(ev, open(os.path.join(VERIF, "evidence", self.prop + ".json"), "w"), indent=1)
+        os.makedirs(os.path.join(self.outdir, "evidence"), exist_ok=True)
+        json.dump(ev, open(os.path.join(self.outdir, "evidence", self.prop + ".json"), "w"), indent=1)
 
     def cleanup(self):
         shutil.rmtree(self.scratch, ignore_errors=True)
